@@ -3,10 +3,12 @@
 package dedit
 
 import (
+	"encoding/json"
 	"errors"
 	"fmt"
 	"os"
 	"runtime"
+	"sort"
 	"strings"
 
 	"verif/internal/abs"
@@ -29,6 +31,11 @@ type Op struct {
 	At  abs.Path  `json:"at"` // selection edited
 	S   *abs.Tree `json:"s"`  // source tree, absolute paths (nil for delete)
 	Src string    `json:"src"`
+	// Into: the same edit through the source-side API (UpsertInto / InsertInto / UpdateInto):
+	// same meaning, roles of the two selections swapped
+	Into bool `json:"into"`
+	// Dup: (JSON sources) the first entry of the first list of the payload is written twice
+	Dup bool `json:"dup"`
 }
 
 // ErrClass classifies an error by errors.Is only, never by message.
@@ -141,8 +148,8 @@ func execEdit(c core.Case) []core.Rec {
 		}
 		before := kind.Project(f, root)
 		rec := core.Rec{"chk": "edit", "schema": fname, "impl": storeName, "src": op.Src, "ordered": kind.Ordered, "srcordered": SrcOrdered(op.Src),
-			"pre": before, "op": core.Rec{"k": op.K, "at": op.At, "s": orEmpty(op.S)}, "step": i,
-			"sig": core.Rec{"impl": storeName, "src": op.Src, "k": op.K, "at": atKind(f, op.At)}}
+			"pre": before, "op": core.Rec{"k": op.K, "at": op.At, "s": orEmpty(op.S), "dup": false}, "step": i,
+			"sig": core.Rec{"impl": storeName, "src": op.Src, "k": op.K, "at": atKind(f, op.At), "into": op.Into}}
 		res := core.Rec{"ok": false, "err": "", "frame": "", "msg": ""}
 		b := node.NewBrowser(f.Module, kind.Wrap(root))
 		sel := b.Root()
@@ -171,6 +178,12 @@ func execEdit(c core.Case) []core.Rec {
 			srcNode, err = SourceNode(f, op.Src, gen.WithAncestors(f.DS, op.S, op.At), op.At[:len(op.At)-1])
 		} else if op.K != "delete" {
 			srcNode, err = SourceNode(f, op.Src, op.S, op.At)
+			if op.Dup && op.Src == "json" && err == nil {
+				if text, ok := dupFirstEntry(fx.JSONDoc(f, op.S, op.At)); ok {
+					srcNode, err = nodeutil.ReadJSON(text)
+					rec["op"].(core.Rec)["dup"] = true
+				}
+			}
 		}
 		if op.K != "delete" {
 			if err != nil {
@@ -183,6 +196,16 @@ func execEdit(c core.Case) []core.Rec {
 			}
 		}
 		callErr, panicked, frame := Guard(func() error {
+			if op.Into && (op.K == "upsert" || op.K == "insert" || op.K == "update") {
+				from := sel.Split(srcNode)
+				switch op.K {
+				case "upsert":
+					return from.UpsertInto(sel.Node)
+				case "insert":
+					return from.InsertInto(sel.Node)
+				}
+				return from.UpdateInto(sel.Node)
+			}
 			switch op.K {
 			case "upsert":
 				return sel.UpsertFrom(srcNode)
@@ -285,4 +308,42 @@ func brief(s string) string {
 		return s[:160]
 	}
 	return s
+}
+
+// dupFirstEntry writes the first entry of the first non-empty list of a JSON document twice.
+func dupFirstEntry(text string) (string, bool) {
+	dec := json.NewDecoder(strings.NewReader(text))
+	dec.UseNumber()
+	var doc any
+	if err := dec.Decode(&doc); err != nil {
+		return text, false
+	}
+	done := false
+	var walk func(v any) any
+	walk = func(v any) any {
+		switch x := v.(type) {
+		case map[string]any:
+			keys := make([]string, 0, len(x))
+			for k := range x {
+				keys = append(keys, k)
+			}
+			sort.Strings(keys)
+			for _, k := range keys {
+				x[k] = walk(x[k])
+			}
+			return x
+		case []any:
+			if !done && len(x) > 0 {
+				if _, isObj := x[0].(map[string]any); isObj {
+					done = true
+					return append([]any{x[0]}, x...)
+				}
+			}
+			return x
+		}
+		return v
+	}
+	doc = walk(doc)
+	b, err := json.Marshal(doc)
+	return string(b), done && err == nil
 }
